@@ -193,9 +193,10 @@ def enums_notes(tschema, eschema, K):
         if a['cnote']:
             exp.append(('comment', 'COLUMN', q + ('a',), ntext))
         if a['second']:
-            t2 = Table('u', columns=[Column('k', 'int', pk=True)])
+            # the second table shares the bare name with the first and differs by schema only
+            t2 = Table('t', schema='zz', columns=[Column('k', 'int', pk=True)])
             db.add(t2)
-            exp.append(('table', ('u',), (('k', 'int', True, False, False, False, None),), (), ()))
+            exp.append(('table', ('zz', 't'), (('k', 'int', True, False, False, False, None),), (), ()))
         return db, exp
 
     def body(a):
@@ -270,7 +271,7 @@ def instances(tier):
     for schema in ('public', 'Public'):
         for shape in ('single', 'composite', 'expr', 'colexpr'):
             add(f'indexes/{schema}/{shape}/K{K}', 'indexes', {'schema': schema, 'shape': shape, 'K': K}, T)
-    for ts, es in (('public', 'public'), ('pub', 'public'), ('public', 'PUBLIC'), ('lic', 'e')):
+    for ts, es in (('public', 'public'), ('pub', 'public'), ('public', 'PUBLIC'), ('lic', 'e'), ('e', 'e')):
         add(f'enums_notes/{ts}/{es}/K{K}', 'enums_notes', {'tschema': ts, 'eschema': es, 'K': K}, T)
     add(f'parsed/K{K}', 'parsed_table', {'K': K}, T)
     if not quick:
